@@ -122,6 +122,32 @@ class Ctx:
     def module(self, relpath):
         return self.interp.load_module(relpath)
 
+    # ---- C/C++ kernels (clang JSON AST) ---------------------------------------------
+    def load_c(self, relfile, names, include=(), defines=(), pick=None):
+        """load FunctionDecls with bodies; `pick` maps a name to the index of the body to use when a kernel header is
+        compiled several times under the same name (not the case in mdtraj: every variant has its own name)"""
+        from . import cinterp
+
+        fns = cinterp.load_functions(self.interp.repo, relfile, names, include, defines)
+        chosen = {}
+        for n, bodies in fns.items():
+            if not bodies:
+                raise Unsupported(f"no definition of {n} found in {relfile}")
+            chosen[n] = bodies[(pick or {}).get(n, -1 if len(bodies) == 1 else 0)]
+        if getattr(self, "c", None) is None:
+            self.c = cinterp.CInterp(self.ex, chosen, repo=self.interp.repo)
+        else:
+            self.c.functions.update(chosen)
+        return self.c
+
+    def ccall(self, name, *args):
+        from . import cinterp
+
+        try:
+            return Outcome(value=self.c.call_function(name, list(args)))
+        except cinterp.CAbort:
+            return Outcome(exc="abort")
+
     def call(self, f, *args, **kwargs):
         try:
             return Outcome(value=self.interp.call(f, list(args), kwargs))
@@ -200,6 +226,26 @@ def source_info(repo, file, function):
     except OSError:
         return {"file_missing": True}
     info = {"file_sha256": hashlib.sha256(text.encode()).hexdigest()[:16]}
+    if file.endswith((".cpp", ".c", ".h", ".cxx")):
+        # the function text: from the line of its definition to the matching closing brace
+        import re
+
+        name = function.split("@")[0]
+        m = re.search(r"^[\w\s\*:<>,&]*\b" + re.escape(name) + r"\s*\([^;{]*\)\s*(const)?\s*\{", text, re.M)
+        if m:
+            depth, i = 0, m.end() - 1
+            while i < len(text):
+                if text[i] == "{":
+                    depth += 1
+                elif text[i] == "}":
+                    depth -= 1
+                    if depth == 0:
+                        break
+                i += 1
+            seg = text[m.start(): i + 1]
+            info["lines"] = [text.count("\n", 0, m.start()) + 1, text.count("\n", 0, i) + 1]
+            info["text_sha256"] = hashlib.sha256(seg.encode()).hexdigest()[:16]
+        return info
     if file.endswith(".py"):
         try:
             tree = ast.parse(text)
@@ -219,6 +265,18 @@ def source_info(repo, file, function):
         except SyntaxError:
             info["syntax_error"] = True
     return info
+
+
+_POOL_OBLS = None
+
+
+def _discharge_idx(i):
+    obls, timeout = _POOL_OBLS
+    o = obls[i]
+    core.STATS = core.SolverStats()
+    o.discharge(timeout)
+    st = core.STATS
+    return (o.status, o.backend, o.time_s, o.model, o.note, (st.z3_queries, st.z3_time, st.cvc5_queries, st.cvc5_time))
 
 
 class Runner:
@@ -273,21 +331,44 @@ class Runner:
             res.unsupported.append(str(e))
         except Exception as e:  # engine bug: reported as checker error, never as a violation
             res.error = f"{type(e).__name__}: {e}\n" + traceback.format_exc()[-1500:]
-        # discharge
+        # discharge (in parallel across forked workers when there are many obligations)
+        self.discharge_all(res.obligations)
         for o in res.obligations:
-            if o.kind == "safety":
+            if o.kind == "safety" and o.status != "discharged":
                 # recorded assumptions (division by a nonzero quantity): proved if possible, else noted
-                st = o.discharge(self.timeout_ms)
-                if st != "discharged":
-                    o.status = "undecided"
-                continue
-            o.discharge(self.timeout_ms)
+                o.status = "undecided"
         # safety obligations that fail are not refutations of the property; drop undecided ones
         res.safety_open = [o for o in res.obligations if o.kind == "safety" and o.status != "discharged"]
         res.obligations = [o for o in res.obligations if not (o.kind == "safety" and o.status != "discharged")]
         res.covers_missing = [c for c in con.covers if c not in covers]
         res.time_s = time.time() - t0
         return res
+
+    workers = 1
+
+    def discharge_all(self, obligations):
+        global _POOL_OBLS
+        n = len(obligations)
+        w = min(self.workers, max(1, n // 8))
+        if w <= 1:
+            for o in obligations:
+                o.discharge(self.timeout_ms)
+            return
+        import multiprocessing as mp
+
+        _POOL_OBLS = (obligations, self.timeout_ms)
+        ctx = mp.get_context("fork")
+        with ctx.Pool(w) as pool:
+            results = pool.map(_discharge_idx, range(n), chunksize=max(1, n // (w * 8)))
+        for o, (status, backend, t, model, note, stats) in zip(obligations, results):
+            o.status, o.backend, o.time_s, o.model, o.note = status, backend, t, model, note
+            core.STATS.z3_queries += stats[0]
+            core.STATS.z3_time += stats[1]
+            core.STATS.cvc5_queries += stats[2]
+            core.STATS.cvc5_time += stats[3]
+            if status == "discharged" and backend:
+                core.STATS.by_backend[backend] = core.STATS.by_backend.get(backend, 0) + 1
+        _POOL_OBLS = None
 
     def _new_interp(self, ex, con):
         interp = pyinterp.Interp(ex, repo=self.repo)
